@@ -846,10 +846,13 @@ FILE_TAIL = {"quick": 4, "thorough": 5}
 
 def enum_file_strings(ctx, tier):
     """'file:' + every string up to FILE_TAIL[tier]: the quick bound of 5
-    cannot even spell 'file:/'.  (Mixed-case spellings of the scheme are
-    outside the property's alphabet and are not generated.)"""
+    cannot even spell 'file:/'.  Mixed-case spellings of the scheme are
+    outside the property's alphabet; a few short ones are added because
+    file URLs are normalised whatever the case of the scheme."""
     i = 0
-    for prefix, bound in (("file:", FILE_TAIL[tier]),):
+    # (the scheme in other letter cases: a few short tails only)
+    for prefix, bound in (("file:", FILE_TAIL[tier]), ("FILE:", 3),
+                          ("File:", 3), ("fiLe:", 2)):
         for n in range(0, bound + 1):
             for t in itertools.product(ALPHABET, repeat=n):
                 if ctx.mine(i):
@@ -1087,7 +1090,14 @@ def run_shard(ctx):
         for s in enum_strings(ctx, bound):
             check_helper(ctx, H, s)
         for s in enum_file_strings(ctx, ctx.tier):
-            check_helper(ctx, H, s)
+            if s[:5] != "file:":
+                # mixed-case scheme (outside the statement's alphabet):
+                # only the functions whose job is the normalisation; what
+                # urljoin returns for it is normalised by every caller
+                check_helper(ctx, H, s, fns=("ispath", "normalizeurl",
+                                             "urlnormalize", "urldefrag"))
+            else:
+                check_helper(ctx, H, s)
             H.n["file_prefixed_strings"] = \
                 H.n.get("file_prefixed_strings", 0) + 1
         if ctx.quick:
